@@ -259,7 +259,8 @@ CLAIMED.update({
              "Stage 2 (visits/<shape>): on HIR node shapes (calls with positional / variadic / keyword arguments, method calls, operators, collection literals, type ascriptions, "
              "attribute accesses) check_expr passes every eagerly evaluated child to check_expr on every path, and a call with a procedural callee or method name pushes an effect error "
              "whenever the context predicate answers 'forbidden' - by induction the traversal reaches every procedure call of an expression tree of those node kinds. "
-             "Stage 3 (block-kind/table): check_def pushes, for every combination of (procedural name, subroutine, constant), the block kind the property's reading gives "
+             "Stage 2b: a read of a variable is reported exactly when effects are forbidden, the variable is no parameter, has a mutable type, is not reached through a reference and "
+             "was defined in a namespace other than full_path(). Stage 3 (block-kind/table): check_def pushes, for every combination of (procedural name, subroutine, constant), the block kind the property's reading gives "
              "(procedure -> Proc, function -> Func / ConstFunc, any non-subroutine definition -> an instant block, also when its name ends in `!`).",
         note="Trusts rustc's MIR dump, engines/mirsem.py + mirflow.py, z3, the std contract models listed in the evidence, and the invariant that only SideEffectChecker::check pushes Module "
              "(once, first). The encoding is validated per run against the real function on all stacks of depth <= 3 and a sample of deeper ones (cargo test on the scratch copy).",
@@ -325,6 +326,27 @@ CLAIMED.update({
              "sources as named constants (that those numbers are the interpreters' is C16). Validated per run: for all 100 (version, operator) pairs the bytes a real "
              "PyCodeGenerator appends are the ones the encoding predicts. `in` / `notin` never reach these tables (desugared to Erg's contains operator).",
         design="0b/C13"),
+})
+
+
+CLAIMED.update({
+    "C18": dict(
+        engine="mirsem+kani",
+        technique="symbolic execution of the rustc MIR of JsonGenerator::transpile_expr (which writer receives a literal's value / a bound value / a folded constant), of the writer's "
+                  "Str arm, and of the string kernel it calls: the input string is k arbitrary Unicode scalar values (z3 integers), String building and str::chars are modelled, each "
+                  "path's output is a sequence of code-point terms that a reference RFC 8259 decoder parses with z3 entailment queries; Kani/CBMC on the writer for None / Bool; "
+                  "counterexamples replayed on the real function (cargo test) and with `erg transpile --target json` + python json",
+        category="other",
+        text="Kernel-level partial claim on the JSON target: (1) the text written for a literal, for a name bound to a constant and for a folded constant expression is the value-to-JSON "
+             "writer applied to that value (not the token's source text, not ValueObj's Display); (2) the writer writes None as null and booleans as true / false (all values, Kani); "
+             "(3) for a Str value it calls one string kernel, and for every string of k characters (k <= 2 quick, <= 3 thorough; every Unicode scalar value for each character) the "
+             "kernel's text is exactly one RFC 8259 string literal that decodes to the same string. The structural arms (list / tuple / record / dict displays, commas, key quoting), "
+             "number formatting (Rust's Display), containers as *values* (bound names holding lists / records / dicts), longer strings and the front end are not decided.",
+        note="Trusts rustc's MIR dump, engines/mirsem.py + mirflow.py, z3, Kani/CBMC, the RFC 8259 decoder in props/c18_str.py, and the models of String::push / push_str / "
+             "with_capacity, str::chars / len and Chars::next (the UTF-8 encoding inside std is not modelled: strings are sequences of code points). Validated per run: on 20 fixed "
+             "strings the real kernel's output equals the encoding's output byte for byte. The kernel handles one character at a time and keeps no state but the output buffer, which "
+             "is why k <= 3 is taken as representative; longer strings are outside the claim.",
+        design="0b/C18"),
 })
 
 
